@@ -7,6 +7,7 @@ import numpy as np
 from hypothesis import strategies as st
 
 import common
+import gens
 from common import Sub, Violation, lib, require, quiet
 import kbuild
 import pyx2py
@@ -432,6 +433,8 @@ def gen_wrappers(draw, tier="quick"):
         "dim": draw(st.integers(1, 3)),
         "n": draw(st.integers(2, 30)),
         "threads": draw(st.sampled_from([1, 2, 4, 16])),
+        # "for all values": amplitudes of any magnitude (fields in SI units of tiny or huge quantities)
+        "var": draw(st.one_of(st.just(1.7), st.integers(-60, 60).map(lambda e: 1.7 * 10.0**e))),
     }
 
 
@@ -451,9 +454,9 @@ def check_wrappers(case, rec):
             gs.config.NUM_THREADS = nt
             with quiet():
                 if w in ("srf", "vector", "fourier"):
-                    model = gs.Gaussian(dim=dim, var=1.7, len_scale=1.3)
+                    model = gs.Gaussian(dim=dim, var=case.get("var", 1.7), len_scale=1.3)
                     if w == "fourier":
-                        srf = gs.SRF(model, generator="Fourier", period=8.0, mode_no=4, seed=case["seed"] % 1000)
+                        srf = gs.SRF(model, generator="Fourier", period=8.0, mode_no=4 + 8 * (case["seed"] % 2), seed=case["seed"] % 1000)
                     elif w == "vector":
                         srf = gs.SRF(model, generator="VectorField", mode_no=24, seed=case["seed"] % 1000, mean_velocity=1.5)
                     else:
